@@ -19,6 +19,14 @@ single empty push, not impossible") both statements were FALSE for the code (wit
 over the `j:` dissatisfaction (`satDissatG nz`, Lemmas/CompleteFixed.lean): they need
 `nz = push0` or a script without `j:`; `MODEL_NZ` is the literal of the current code.
 
+  T4  descriptor level, taproot: the leaf loop `best_tap_spend` (Model/TapSpend.lean; shared by
+      `Tr::get_satisfaction{,_mall}` and `Descriptor::into_plan{,_mall}`) returns a spend iff a
+      key-path signature is available or some leaf's satisfier returns a stack
+      (`tr_leafloop_iff`), the kept leaf has the smallest witness size (`tr_leafloop_minimal`),
+      hence with T1 / T3: table-satisfiable key path or leaf ⇒ a spend is returned
+      (`tr_complete_mall`, `tr_complete_nonmall`).  (For the other output types the descriptor
+      satisfier IS the miniscript satisfier of the single script: T1 / T3 apply directly.)
+
 Explicit hypotheses, all decidable predicates over the nodes of the script:
   `NoMixedLocks a ms`  the locks of `ms` that the assets declare satisfied have one unit per kind
                        (they come from one transaction's nLockTime / nSequence), so
@@ -30,6 +38,7 @@ Explicit hypotheses, all decidable predicates over the nodes of the script:
 -/
 import MsVerif.Lemmas.CompleteMall
 import MsVerif.Lemmas.CompleteNonMall
+import MsVerif.Lemmas.CompleteTap
 
 namespace MsVerif.C02
 open MsVerif SatTable Complete
@@ -264,5 +273,72 @@ example : ∃ w, (satDissat ⟨keyEnv0, .segwitv0, false, true, ex3Assets⟩ ex3
   have := nonmall_complete keyEnv0 .segwitv0 ex3Assets ex3Script τ hτ hm hs
     (by decide) (by decide) (by decide) (by decide) ex3_table
   rwa [hs] at this
+
+/-! ## T4 — descriptor level: the taproot leaf loop -/
+
+/-- the leaf loop skips no leaf: a spend is returned iff the key path is signable or some leaf
+has a stack satisfaction in the given mode -/
+theorem tr_leafloop_iff (ke : KeyEnv) (a : Assets) (mall tk : Bool) (ls : List TapLeaf) :
+    bestTapSpend ke a mall tk ls ≠ .none ↔
+      (tk = true ∨ ∃ l ∈ ls, ∃ w, (satDissat (tapLeafCfg ke a mall l.ms) l.ms).sat.stack = .stack w) := by
+  rw [bestTapSpend_ne_none]
+  constructor
+  · rintro (h | ⟨l, hm, hs⟩)
+    · exact .inl h
+    · exact .inr ⟨l, hm, isStk_exists hs⟩
+  · rintro (h | ⟨l, hm, w, hw⟩)
+    · exact .inl h
+    · exact .inr ⟨l, hm, by unfold leafSat; rw [hw]; rfl⟩
+
+/-- … and ranks correctly: the witness size kept by the loop is minimal among all leaves that
+have a stack satisfaction -/
+theorem tr_leafloop_minimal (ke : KeyEnv) (a : Assets) (mall : Bool) (ls : List TapLeaf) (j m : Nat)
+    (h : tapLoop ke a mall ls 0 none = some (j, m)) :
+    ∀ l ∈ ls, ∀ s, (satDissat (tapLeafCfg ke a mall l.ms) l.ms).sat.stack = .stack s →
+      m ≤ tapLeafWitSize ke l s :=
+  (tapLoop_min ke a mall ls 0 none j m h).2
+
+/-- malleable mode (`get_satisfaction_mall`, `into_plan_mall`): key path signable or some leaf
+table-satisfiable ⇒ a spend is returned -/
+theorem tr_complete_mall (ke : KeyEnv) (a : Assets) (tk : Bool) (ls : List TapLeaf)
+    (hlk : ∀ l ∈ ls, NoMixedLocks a l.ms) (hsz : SigSizesOK a) (hsm : ∀ l ∈ ls, SmallScript l.ms)
+    (h : tk = true ∨ ∃ l ∈ ls, satEx (avail a .tap) l.ms = true) :
+    bestTapSpend ke a true tk ls ≠ .none := by
+  rw [tr_leafloop_iff]
+  rcases h with h | ⟨l, hm, hs⟩
+  · exact .inl h
+  · exact .inr ⟨l, hm, (mall_complete_table ke .tap _ a l.ms (hlk l hm) hsz (hsm l hm)).1 hs⟩
+
+/-- non-malleable mode (`get_satisfaction`, `into_plan`): key path signable or some leaf that
+meets T3's hypotheses is table-satisfiable ⇒ a spend is returned -/
+theorem tr_complete_nonmall (ke : KeyEnv) (a : Assets) (tk : Bool) (ls : List TapLeaf)
+    (h : tk = true ∨ ∃ l ∈ ls, ∃ τ, typeOf l.ms = some τ ∧ τ.mall.nonMall = true ∧
+      τ.mall.signed = true ∧ NoRawPkH l.ms ∧ AllPreimages a l.ms ∧ ThreshKOK l.ms ∧
+      NoMixedLocks a l.ms ∧ satEx (avail a .tap) l.ms = true) :
+    bestTapSpend ke a false tk ls ≠ .none := by
+  rw [tr_leafloop_iff]
+  rcases h with h | ⟨l, hm, τ, hτ, hnm, hsg, hraw, hpre, hk, hlk, hs⟩
+  · exact .inl h
+  · refine .inr ⟨l, hm, ?_⟩
+    have := nonmall_complete ke .tap a l.ms τ hτ hnm hsg hraw hpre hk hlk hs
+    simpa [tapLeafCfg, hτ] using this
+
+/-- non-vacuity: `tr(K9,{pk(K0),and_v(v:pk(K1),older(5))})` with a Schnorr signature for K1 and
+the lock: only the second leaf is satisfiable and it is the one returned -/
+def ex4Leaves : List TapLeaf :=
+  [⟨.check (.pkK 0), 1⟩, ⟨.andV (.verify (.check (.pkK 1))) (.older 5), 1⟩]
+def ex4Assets : Assets where
+  ecdsaSig _ := false
+  schnorrSig k := if k == 1 then some 64 else none
+  rawPkhPk _ := none
+  rawPkhEcdsa _ := none
+  rawPkhSchnorr _ := none
+  preimage _ _ := false
+  checkOlder n := n == 5
+  checkAfter _ := false
+
+example : bestTapSpend keyEnv0 ex4Assets false false ex4Leaves = .leaf 1 ∧
+    bestTapSpend keyEnv0 ex4Assets true false ex4Leaves = .leaf 1 ∧
+    bestTapSpend keyEnv0 ex4Assets false true ex4Leaves = .key := by decide
 
 end MsVerif.C02
